@@ -323,6 +323,7 @@ class Ctx:
         self.repo = repo
         self.files = {}
         self.fired = []     # (rule, file, line, note)
+        self.dropped_hints = []
         self.pathmap = []
 
     def sf(self, rel):
@@ -431,7 +432,8 @@ def common_rewrites(ctx, sf, a, b, item_kind, opts):
                 if semi.text == ";":
                     body_text_end = sf.text[body_lo:body_hi].rstrip()
                     needs_semi = not body_text_end.endswith("}") and not body_text_end.endswith(";")
-                    edits.append(Edit(t.start, body_lo, f"for {var} in {rng} "))
+                    itn = getattr(ctx, "foreach_iter", {}).get(close_rng + 2)
+                    edits.append(Edit(t.start, body_lo, f"for {var} in {itn + ': ' if itn else ''}{rng} "))
                     edits.append(Edit(body_lo, body_lo, "{ ", prio=0.5))
                     edits.append(Edit(body_hi, semi.end, (";" if needs_semi else "") + " }"))
                     ctx.fire("N4", sf, t.start)
@@ -470,6 +472,13 @@ def common_rewrites(ctx, sf, a, b, item_kind, opts):
                 ctx.fire("N4r", sf, t.start)
                 k = call_open + 4
                 continue
+        # N14: std::cmp::{min,max}(a, b) free functions -> Ord::{min,max}(a, b) (their definition in std)
+        if t.kind == "id" and t.text in ("min", "max") and toks[k + 1].text == "(" and toks[k - 1].text not in (".", "::", "fn") \
+                and not opts.get("no_n14"):
+            edits.append(Edit(t.start, t.start, "Ord::"))
+            ctx.fire("N14", sf, t.start, t.text)
+            k += 1
+            continue
         # N11: assert_eq!(A, B) -> assert!((A) == (B)); assert_ne! -> != (definition of the macros, message dropped)
         if t.kind == "id" and t.text in ("assert_eq", "assert_ne", "debug_assert_eq") and toks[k + 1].text == "!" \
                 and toks[k + 2].text == "(":
@@ -516,7 +525,23 @@ def common_rewrites(ctx, sf, a, b, item_kind, opts):
                     return j_ > 0
                 if ts[j_].text != "(" or ts[-1].text != ")":
                     return False
-                return all(x.kind in ("str", "num", "char") or x.text == "," for x in ts[j_ + 1:-1])
+                # arguments that cannot panic or have effects: literals, field paths, .clone()/.to_string()/.len(),
+                # format!(..) over such arguments. No indexing, no arithmetic, no unwrap.
+                ok_ids_after_dot = {"clone", "to_string", "len", "into", "to_owned"}
+                for n_, x in enumerate(ts[j_ + 1:-1]):
+                    prev = ts[j_ + n_].text
+                    if x.kind in ("str", "num", "char"):
+                        continue
+                    if x.text in (",", ".", "::", "(", ")", "&", "!", "*"):
+                        continue
+                    if x.kind == "id":
+                        if prev == "." and x.text not in ok_ids_after_dot and ts[j_ + n_ + 2].text == "(":
+                            return False
+                        if x.text in ("unwrap", "expect"):
+                            return False
+                        continue
+                    return False
+                return True
             if len(inner) >= 5 and [x.text for x in inner[-4:]] == [".", "into", "(", ")"] \
                     and pure_path_or_literal_ctor(inner[:-4]):
                 edits.append(Edit(toks[k + 2].start, toks[close - 1].end, "opaque_error(())"))
@@ -687,6 +712,106 @@ def find_anchor(sf, lo_off, hi_off, anchor, nth, what):
     raise LostAnchor(f"{what}: anchor {anchor!r} (occurrence {nth}) not found")
 
 
+def split_match_arms(sf, open_idx):
+    """arms of the match whose `{` is token open_idx: list of (pat_lo, pat_hi, body_lo, body_hi, is_block)"""
+    toks, pair = sf.toks, sf.pair
+    close = pair[open_idx]
+    arms = []
+    k = open_idx + 1
+    while k < close:
+        pat_lo = k
+        while k < close and toks[k].text != "=>":
+            k = pair[k] + 1 if toks[k].text in ("(", "[", "{") else k + 1
+        if k >= close:
+            break
+        pat_hi = k
+        k += 1
+        if toks[k].text == "{":
+            body_lo, body_hi = k, pair[k]
+            k = pair[k] + 1
+            if k < close and toks[k].text == ",":
+                k += 1
+            arms.append((pat_lo, pat_hi, body_lo, body_hi, True))
+        else:
+            body_lo = k
+            while k < close and toks[k].text != ",":
+                k = pair[k] + 1 if toks[k].text in ("(", "[", "{") else k + 1
+            arms.append((pat_lo, pat_hi, body_lo, k - 1, False))
+            k += 1
+    return arms
+
+
+def locate_arm(sf, fn_item, state_pat, ch_pat, what):
+    toks, pair = sf.toks, sf.pair
+    # outer: first `match` in the function body
+    k = fn_item.body_open + 1
+    while k < fn_item.body_close and toks[k].text != "match":
+        k += 1
+    j = k
+    while toks[j].text != "{":
+        j = pair[j] + 1 if toks[j].text in ("(", "[") else j + 1
+    st = None
+    for pl, ph, bl, bh, blk in split_match_arms(sf, j):
+        ptxt = rustlex.norm_ws(sf.text[toks[pl].start:toks[ph - 1].end])
+        if ptxt.startswith(rustlex.norm_ws(state_pat)):
+            st = (bl, bh, blk)
+            break
+    if st is None:
+        raise LostAnchor(f"{what}: state arm {state_pat} not found")
+    bl, bh, st_is_block = st
+    # inner: first `match ch {` inside the state arm (at any nesting depth, e.g. inside `return { .. match ch {..} };`)
+    k = bl if not st_is_block else bl + 1
+    inner = None
+    inner_depth0 = True
+    depth_stack = 0
+    while k <= bh:
+        if toks[k].text == "match" and toks[k + 1].text == "ch" and toks[k + 2].text == "{":
+            inner = k
+            break
+        if toks[k].text in ("(", "[", "{"):
+            depth_stack += 1
+        elif toks[k].text in (")", "]", "}"):
+            depth_stack -= 1
+        k += 1
+    inner_depth0 = st_is_block and depth_stack == 0
+    if inner is None:
+        raise LostAnchor(f"{what}: `match ch` not found in state arm {state_pat}")
+    io = inner + 2
+    found = None
+    for pl, ph, abl, abh, blk in split_match_arms(sf, io):
+        ptxt = rustlex.norm_ws(sf.text[toks[pl].start:toks[ph - 1].end])
+        ptoks = "".join(t.text for t in toks[pl:ph])
+        if ptoks == "".join(t.text for t in lex(ch_pat)):
+            found = (abl, abh, blk)
+            break
+    if found is None:
+        raise LostAnchor(f"{what}: arm {ch_pat} not found in state arm {state_pat}")
+    abl, abh, blk = found
+    if not blk:
+        raise UnitSyntaxError(f"{what}: arm {ch_pat} is an expression arm (its callee carries the contract)")
+    close_inner = pair[io]
+    if inner_depth0:
+        pre = sf.text[toks[bl + 1].start:toks[inner - 1].end] if inner > bl + 1 else ""
+        tail = sf.text[toks[close_inner + 1].start:toks[bh - 1].end] if bh - 1 > close_inner else ""
+    else:
+        pre, tail = "", ""       # nested / expression state arm: the arm block's value is the result
+    q = fn_item.tok_lo
+    while toks[q].text != "fn":
+        q += 1
+    popen = q + 2
+    params = sf.text[toks[popen + 1].start:toks[pair[popen] - 1].end]
+    a = pair[popen] + 1
+    ret = sf.text[toks[a + 1].start:toks[fn_item.body_open - 1].end] if toks[a].text == "->" else "()"
+    if inner_depth0:
+        # after the state arm block the outer match ends; code after the outer match is the function's fall-through result
+        outer_close = pair[j]
+        after = sf.text[toks[outer_close + 1].start:toks[fn_item.body_close - 1].end] if fn_item.body_close - 1 > outer_close else ""
+        tail = (tail + "\n" + after).strip()
+    fake = rustlex.Item("fn", "arm", toks[abl].start, toks[abh].end, toks[abl].start, abl, abh + 1, abl, abh, "")
+    return dict(item=fake, pre=pre, pre_line=sf.line_of(toks[bl + 1].start), tail=tail,
+                tail_line=sf.line_of(toks[close_inner + 1].start) if tail else 0, params=params, ret=ret)
+
+
 def clause_block(kind, clauses, fn_label, indent="    "):
     """Return list of (text_line, origin) for a requires/ensures/invariant block."""
     segs = [Seg(f"\n{indent}{kind}\n", ("ins", fn_label, kind, None))]
@@ -713,11 +838,29 @@ def build_fn(ctx, unit, fs):
     q = it.tok_lo
     while toks[q].text != "fn":
         q += 1
+    arm = None
+    if fs.opts.get("arm_state"):
+        # ARM SLICING: one arm `PAT => { BLOCK }` of the inner `match ch` of one state arm of a big dispatcher becomes a
+        # synthetic method with the dispatcher's signature. What this drops: the dispatch itself (which arm runs for which
+        # state / character) is not verified; fall-through code after the inner match (TAIL) is appended.
+        arm = locate_arm(sf, it, fs.opts["arm_state"].replace("~", " "), fs.opts["arm_pat"].replace("~", " "), fs.path)
+        real_it = it
+        it = arm["item"]
+        fn_label = fs.opts.get("as") or ("arm_" + re.sub(r"\W+", "_", fs.opts["arm_state"] + "_" + fs.opts["arm_pat"]))
+        it.name = fn_label
+        parent_impl = fs.opts.get("impl_as", parent_impl).replace("~", " ")
     has_body = it.body_open is not None
     sig_end_tok = it.body_open if has_body else it.tok_hi - 1   # `{` or `;`
+    ctx.foreach_iter = {}
+    if has_body and fs.loops:
+        pre_loops = find_loops(sf, it.body_open, it.body_close)
+        for ordn_, ls_ in fs.loops.items():
+            if 1 <= ordn_ <= len(pre_loops) and pre_loops[ordn_ - 1][4] == "for_each" and ls_.get("iter"):
+                ctx.foreach_iter[pre_loops[ordn_ - 1][0]] = ls_["iter"]
     edits = common_rewrites(ctx, sf, it.tok_lo, it.tok_hi, "fn", fs.opts)
     in_trait_impl = bool(parent_impl) and (parent_impl.startswith("trait") or " for " in (" " + parent_impl + " "))
-    edits += ensure_pub(sf, it, in_trait_impl)
+    if not arm:
+        edits += ensure_pub(sf, it, in_trait_impl)
     # drop leading doc comments: tokens don't include comments; text before first token is not copied
     start_off = toks[it.tok_lo].start
     if fs.opts.get("rename_fn"):
@@ -726,8 +869,8 @@ def build_fn(ctx, unit, fs):
         ctx.fire("N12", sf, toks[q + 1].start, f"{toks[q + 1].text} -> {fs.opts['rename_fn']}")
         fn_label = fs.opts["rename_fn"]
     # name the return value
-    ret = fs.opts.get("ret", "r")
-    k = q
+    ret = fs.opts.get("ret", "r") if not arm else "-"
+    k = q if not arm else sig_end_tok
     arrow = None
     while k < sig_end_tok:
         if toks[k].text in ("(", "[", "<") and toks[k].text != "<":
@@ -745,7 +888,7 @@ def build_fn(ctx, unit, fs):
         edits.append(Edit(ty_lo, ty_lo, f"({ret}: ", ("src", sf.path, sf.line_of(ty_lo), "ret-name")))
         edits.append(Edit(ty_hi, ty_hi, ")", ("src", sf.path, sf.line_of(ty_hi), "ret-name")))
     # N9: impl Trait params -> named generics
-    if fs.opts.get("n9"):
+    if fs.opts.get("n9") and not arm:
         # n9=pos:P  (param name : generic name)
         for spec in fs.opts["n9"].split(","):
             pname, gname = spec.split(":")
@@ -821,7 +964,9 @@ def build_fn(ctx, unit, fs):
             if ls["decreases"]:
                 segs.append(Seg("        " + ls["decreases"] + "\n", ("ins", fn_label + f"/loop{ordn}", "decreases", None)))
             multi.append((ins_off, segs, 0))
-            if ls["iter"]:
+            if ls["iter"] and lkind == "for_each":
+                pass    # the ghost iterator name is emitted by rule N4 itself
+            elif ls["iter"]:
                 if toks[kw].text != "for":
                     raise LostAnchor(f"{fs.path}: loop #{ordn} is not a for loop")
                 # for PAT in EXPR  ->  for PAT in it: EXPR
@@ -829,7 +974,18 @@ def build_fn(ctx, unit, fs):
                 while toks[j].text != "in":
                     j = pair[j] + 1 if toks[j].text in ("(", "[") else j + 1
                 multi.append((toks[j].end, [Seg(f" {ls['iter']}:", ("ins", fn_label + f"/loop{ordn}", "iter-name", None))], 0))
+        # if any anchored hint of this function lost its anchor, all hints of the function are dropped (they may depend on
+        # each other through ghost variables); failures of the function are then undecided
+        proofs_to_use = fs.proofs
         for where, arg, nth, text, popts in fs.proofs:
+            if where in ("before", "after"):
+                try:
+                    find_anchor(sf, toks[it.body_open].end, toks[it.body_close].start, arg, nth, fs.path)
+                except LostAnchor as ex:
+                    ctx.dropped_hints.append((fn_label, str(ex)))
+                    proofs_to_use = []
+                    break
+        for where, arg, nth, text, popts in proofs_to_use:
             label = f"proof:{where}:{arg}"
             if where in ("before", "after") and popts.get("all"):
                 n_ = 1
@@ -846,7 +1002,13 @@ def build_fn(ctx, unit, fs):
                     n_ += 1
                 continue
             if where in ("before", "after"):
-                s, e = find_anchor(sf, toks[it.body_open].end, toks[it.body_close].start, arg, nth, fs.path)
+                try:
+                    s, e = find_anchor(sf, toks[it.body_open].end, toks[it.body_close].start, arg, nth, fs.path)
+                except LostAnchor as ex:
+                    # a proof hint lost its anchor: drop the hint and let the verifier try without it; failures in this
+                    # function are then reported as undecided, never as violations
+                    ctx.dropped_hints.append((fn_label, str(ex)))
+                    continue
                 off = s if where == "before" else e
             elif where == "body_start":
                 off = toks[it.body_open].end
@@ -884,12 +1046,24 @@ def build_fn(ctx, unit, fs):
         edits.append(Edit(toks[it.body_open].end, toks[it.body_close].start, " unimplemented!() "))
         fs.attrs = list(fs.attrs) + ["#[verifier::external_body]"]
         ctx.fire("T5", sf, toks[it.body_open].start, f"body of assumed-contract fn {it.name} elided")
+    if arm:
+        # TAIL: statements after the inner match inside the state arm run when the arm block falls through
+        if arm["tail"]:
+            multi.append((toks[it.body_close].start, [Seg("\n" + arm["tail"] + "\n", ("src", sf.path, arm["tail_line"], "arm-tail"))], 9))
+        if arm["pre"] and fs.opts.get("pre"):
+            multi.append((toks[it.body_open].end, [Seg("\n" + arm["pre"] + "\n", ("src", sf.path, arm["pre_line"], "arm-pre"))], -9))
     segs = apply_edits_multi(sf, start_off, it.end, edits, multi)
+    if arm:
+        bind = fs.opts.get("bind")
+        extra = (", " + bind.replace("~", " ")) if bind else ""
+        sig = f"pub fn {fn_label}({arm['params']}{extra}) -> (r: {arm['ret']})"
+        segs.insert(0, Seg(sig + " ", ("ins", fn_label, "arm-signature", None)))
+        ctx.fire("ARM", sf, toks[it.body_open].start, f"arm {fs.opts['arm_state']} / {fs.opts['arm_pat']} sliced into {fn_label}")
     attrs = "".join(a + "\n" for a in fs.attrs)
     if attrs:
         segs.insert(0, Seg(attrs, ("ins", fn_label, "attr", None)))
     span_hash = hashlib.sha256(sf.text[it.start:it.end].encode()).hexdigest()[:12]
-    info = dict(label=fn_label, file=file_rel, line=sf.line_of(toks[q].start), end_line=sf.line_of(it.end),
+    info = dict(label=fn_label, file=file_rel, line=sf.line_of(toks[it.body_open].start if arm else toks[q].start), end_line=sf.line_of(it.end),
                 impl=parent_impl, hash=span_hash, tags=(fs.opts.get("tags") or "").split(",") if fs.opts.get("tags") else [],
                 n_requires=len(fs.requires), n_ensures=len(fs.ensures),
                 n_loops=len(fs.loops), path=fs.path, trusted=bool(fs.opts.get("external_body")) and not fs.opts.get("proved_in"),
@@ -1247,7 +1421,7 @@ def assemble(repo, unit_path, extra_header=""):
             segs.append(Seg("\n", ("raw", "sep")))
         elif ent[0] == "fn":
             s, info, parent, sf = build_fn(ctx, unit, ent[1])
-            wrap = ent[1].opts.get("impl_as") or parent
+            wrap = (ent[1].opts.get("impl_as") or "").replace("~", " ") or parent
             if wrap and not (wrap.startswith("impl") or wrap.startswith("trait ")):
                 wrap = None
             if wrap is None or open_impl is None or rustlex.norm_ws(wrap) != rustlex.norm_ws(open_impl):
@@ -1295,6 +1469,7 @@ def assemble(repo, unit_path, extra_header=""):
         info["gen_hi"] = seg_first_line[hi] if hi < len(seg_first_line) else line
         gen.functions.append(info)
     gen.fired = ctx.fired
+    gen.dropped_hints = ctx.dropped_hints
     gen.unit = unit
     return gen
 
